@@ -233,6 +233,40 @@ def r194(ctx) -> None:
         and txt(s.value.slice) == p[1] for s in moves)
     R.check(ok, r, r.node, 'rename: content is carried over unchanged',
             'rename does not store the old script bytes under the new name')
+    # store-then-delete loses the script when both names are equal: that
+    # case must never reach the delete.  `after in _filters` (unweakened)
+    # refuses it, since `before in _filters` holds there.
+    dels = rcfg.find(lambda n: isinstance(n.stmt, ast.Delete) and any(
+        isinstance(t, ast.Subscript) and is_attr(t.value, '_filters', 'self')
+        and txt(t.slice) == p[1] for t in n.stmt.targets))
+    refuse = []
+    for t in rcfg.nodes:
+        if t.kind != 'test':
+            continue
+        at = guard_atoms(t.stmt.test)
+        raises = any(isinstance(m.stmt, ast.Raise) for m, lab in t.succ
+                     if lab == 't')
+        # exactly `after in self._filters` (a disjunction only widens it)
+        if raises and (at == [(f'{p[2]} in self._filters', True)] or (
+                isinstance(t.stmt.test, ast.BoolOp) and isinstance(
+                    t.stmt.test.op, ast.Or)
+                and f'{p[2]} in self._filters' in [txt(v) for v in
+                                                   t.stmt.test.values])):
+            refuse.append(t)
+        # or an explicit early exit for the self-rename
+        if len(at) == 1 and at[0][0] in (f'{p[1]} == {p[2]}',
+                                         f'{p[2]} == {p[1]}') and any(
+                isinstance(m.stmt, (ast.Raise, ast.Return))
+                for m, lab in t.succ if lab == ('t' if at[0][1] else 'f')):
+            refuse.append(t)
+    R.check(bool(dels) and bool(refuse) and all(
+        rcfg.dominated_by(d_, refuse) for d_ in dels), r, r.node,
+        'rename: old == new never reaches the delete',
+        'the "target exists" refusal is weakened (extra conjunct) or '
+        'missing and nothing else stops a rename onto the same name: '
+        '`_filters[new] = _filters[old]; del _filters[old]` then DELETES '
+        'the script — RENAMESCRIPT "x" "x" answers OK, LISTSCRIPTS is '
+        'empty and the active marker points at nothing')
 
 
 def r195(ctx) -> None:
